@@ -10,6 +10,13 @@ Oracle (offline over the event log): provenance (only bytes of response k reach 
 no reuse after taint (no request is written to a transport on which the client had already received
 surplus/unsolicited bytes, a truncated or unread body, a close, an error, a timeout or a cancellation),
 key isolation (a transport is shared only by requests with equal scheme/host/port/proxy).
+
+Further dimensions: 101 upgrades obtained through the plain request API (any Upgrade token, asked for or not) whose caller
+ends in every way the API offers - the peer treats everything after its 101 as tunnel bytes; flow control (small
+read_bufsize, bodies just over/under the byte mark, chunk counts around the chunk-count mark, late readers that consume a
+body after further requests were issued), where "arrived" means "reached the client's end of the pipe" even when the client
+had paused reading; bytes the peer sends on a brand-new connection before the first request (connect completes, the
+awaiting task resumes n loop iterations later, as with loop.create_connection).
 """
 
 from __future__ import annotations
@@ -26,21 +33,27 @@ DESIGN_REF = "DESIGN.md §3 C06"
 TECHNIQUE = "runtime monitoring: provenance markers on every peer byte + offline checker of the wire/event history of a real ClientSession on in-memory transports under virtual time; enumeration of peer behaviour x timing orders"
 LEVEL_TEXT = (
     "Fault enumeration: for histories of 3-6 requests, every peer behaviour (exact, surplus bytes, unsolicited responses, early "
-    "response, truncation, close at a byte, interim 1xx, keep-alive lies, trailers) x every placement of the extra bytes relative "
-    "to {end of response, release, idle, next acquisition} x client consumption mode is executed on the real client; unique "
-    "markers make 'which exchange produced these bytes' a lookup."
+    "response, truncation, close at a byte, interim 1xx, keep-alive lies, trailers, 101 upgrades, greetings before the first request) "
+    "x every placement of the extra bytes relative to {end of response, release, idle, next acquisition} x client consumption mode "
+    "(incl. async-with exit, late readers) x flow-control regime (read_bufsize, body size / chunk count around the pause marks) is "
+    "executed on the real client; unique markers make 'which exchange produced these bytes' a lookup."
 )
 RULE = (
     "a case = (sequence of requests with endpoint key, per-request peer behaviour + delay of the extra bytes, client consumption "
     "mode, gaps); systematic: all (behaviour, delay, mode) triples in the second position of a 3-request history; random histories "
-    "beyond; non-trivial = at least one transport carried (or could have carried) two requests; distinct by case description; "
+    "beyond; blocks: 101 upgrade (token x asked x response headers x tunnel bytes x delay x way of ending), flow control (framing around the "
+    "pause marks x extra bytes x delay x mode), greeting (kind x connect lag x mode); "
+    "non-trivial = at least one transport carried (or could have carried) two requests; distinct by case description; "
     "interleavings = distinct (behaviour, delay, mode, reuse pattern, outcome) signatures"
 )
 ASSUMPTIONS = [
     "the scripted peer answers request k only with bytes marked k; surplus/unsolicited bytes carry their own markers",
-    "a taint counts from the loop iteration in which the tainting bytes/close were delivered to the client protocol",
+    "a taint counts from the loop iteration in which the tainting bytes/close were delivered to the client protocol; when the client "
+    "transport had reading paused from the bytes' arrival until the next request was written, from their arrival at the client's end of the pipe",
+    "after sending a 101 the scripted peer treats every further byte on that transport as tunnel data (never answers HTTP on it again)",
+    "connect lag: the awaiting task resumes n loop iterations after connection_made (loop.create_connection wakes its waiter through the loop)",
 ]
-FILES = ["aiohttp/client_proto.py", "aiohttp/connector.py", "aiohttp/client_reqrep.py", "aiohttp/client.py"]
+FILES = ["aiohttp/client_proto.py", "aiohttp/connector.py", "aiohttp/client_reqrep.py", "aiohttp/client.py", "aiohttp/streams.py", "aiohttp/base_protocol.py"]
 ANCHORS = [
     "aiohttp.client_proto:ResponseHandler.data_received",
     "aiohttp.client_proto:ResponseHandler.set_response_params",
@@ -49,6 +62,9 @@ ANCHORS = [
     "aiohttp.client_reqrep:ClientResponse._response_eof",
     "aiohttp.client_reqrep:ClientResponse.release",
     "aiohttp.client_reqrep:ClientResponse.close",
+    "aiohttp.streams:StreamReader.feed_eof",
+    "aiohttp.base_protocol:BaseProtocol.pause_reading",
+    "aiohttp.base_protocol:BaseProtocol.resume_reading",
 ]
 SHARD_TIMEOUT = {"quick": 900, "thorough": 5400}
 
@@ -58,7 +74,34 @@ BEHAVIOURS = [
     "http10", "http10-keepalive", "status-204", "status-304", "expect100-final-without-100", "expect100-ok", "unsolicited-partial-line", "surplus-response-split", "unsolicited-partial-split",
 ]
 DELAYS = [0.0, 0.2, 0.7, 1.3]  # same segment / while the caller still reads / while idle in the pool / after the next request went out
-MODES = ["read", "read-slow", "release-unread", "close", "ignore-body", "cancel", "timeout"]
+MODES = ["read", "read-slow", "release-unread", "close", "ignore-body", "cancel", "timeout", "async-with", "async-with-read", "read-late"]
+# blocks of their own (not part of the behaviour x delay x mode product)
+UPGRADE_TOKENS = ["tcp", "websocket", "WebSocket", "h2c", "x-proto/1"]
+UPGRADE_RHDR = ["full", "no-connection", "bare"]  # 101 with Upgrade + Connection: upgrade / Upgrade only / neither
+UPGRADE_TUNNEL = [None, "http", "bin", "http-partial"]  # what the peer says inside the tunnel after its 101
+UPGRADE_ENDS = ["release-unread", "close", "ignore-body", "async-with", "async-with-read", "read", "read-late"]
+FLOW_BEHS = ["exact", "unsolicited", "unsolicited-partial", "surplus-response", "surplus-garbage"]
+FLOW_MODES = ["read", "read-slow", "release-unread", "close", "ignore-body", "async-with", "read-late"]
+GREETINGS = ["response", "garbage", "partial-head", "partial-line", "interim"]
+LAGS = [0, 1, 2, 3, 5]
+
+
+def flow_framings(bufsize):
+    """(n, chunks) around plausible pause marks of a body stream with read buffer `bufsize`: body sizes at bufsize and 2 x bufsize
+    (+-1), chunk counts at power-of-two fractions of bufsize (+-1, +2), and one framing over both kinds of mark."""
+    hi = 2 * bufsize
+    out = [(bufsize, None), (bufsize + 1, None), (hi - 1, None), (hi, None), (hi + 1, None), (hi * 3, None)]
+    for div in (8, 16, 32):
+        c = max(4, bufsize // div)
+        for d in (-1, 0, 1, 2):
+            out.append((max(40, c + d), c + d))
+    out.append((hi * 2, max(4, bufsize // 16) + 1))  # both marks at once
+    seen, res = set(), []
+    for f in out:
+        if f not in seen and (f[1] is None or f[1] >= 2):
+            seen.add(f)
+            res.append(f)
+    return res
 ENDPOINTS = ["http://a.test/", "http://a.test:8080/", "https://a.test/", "http://b.test/", "http://a.test/|proxy=http://p.test:3128", "http://b.test/|proxy=http://p.test:3128",
              "https://a.test/|ssl=False", "https://a.test/|ssl=fpA", "https://a.test/|ssl=fpB"]
 
@@ -72,7 +115,19 @@ def shards(tier, seed):
         out.append({"kind": "systematic", "sub": i, "parts": parts, "stride": 3 if q else 1})
     for i in range(4 if q else 32):
         out.append({"kind": "random", "sub": i, "n": 500 if q else 6000})
+    # blocks: 101 upgrades / flow control around the end of a response / bodiless statuses + greetings + default buffer marks
+    nb = len(out)
+    for kind, parts in (("upgrade", 1 if q else 4), ("flow", 2 if q else 6), ("misc", 1 if q else 2)):
+        for i in range(parts):
+            out.append({"kind": kind, "sub": nb, "part": i, "parts": parts, "full": not q})
+            nb += 1
     return out
+
+
+def bodiless(spec):
+    """Does the script answer this request with a status that has no body?"""
+    beh = spec["beh"]
+    return beh in ("status-204", "status-304", "upgrade-101") or (bool(spec.get("st")) and beh not in ("exact-chunked", "exact-trailers", "no-length"))
 
 
 def body_of(k, n=40):
@@ -90,9 +145,23 @@ class Peer(asyncio.Protocol):
         self.buf = bytearray()
         self.consumed = 0
         self.lost = False
+        self.tunnel = False  # True after this peer sent a 101: the rest of the connection is not HTTP any more
+        self.tunnel_in = bytearray()
 
     def connection_made(self, tr):
         self.transport = tr
+        g = self.w.case.get("greeting")
+        if g:
+            # the peer speaks first (a banner, a confused/hostile server): bytes sent before any request exists
+            t = self.tidx
+            data = {
+                "response": b"HTTP/1.1 200 OK\r\nX-Rid: greeting-%d\r\nContent-Length: 8\r\n\r\nGREETING" % t,
+                "garbage": b"220 greeting-%d ESMTP ready\r\n" % t,
+                "partial-head": b"HTTP/1.1 200 OK\r\nX-Rid: greeting-%d\r\nContent-Le" % t,
+                "partial-line": b"HTTP/1.1 200 OK\r\nX-Rid: greeting-%d\r\n" % t,
+                "interim": b"HTTP/1.1 103 Early Hints\r\nX-Rid: greeting-%d\r\n\r\n" % t,
+            }[g]
+            self.send(data, ("greeting", -1))
 
     def connection_lost(self, exc):
         self.lost = True
@@ -103,8 +172,15 @@ class Peer(asyncio.Protocol):
 
     def data_received(self, data):
         w = self.w
+        if self.tunnel:
+            self.tunnel_in += data
+            w.log.append(("tunnel-in", self.tidx, len(data), w.loop.iteration))
+            return
         self.buf += data
         while True:
+            if self.tunnel:
+                self.tunnel_in += self.buf[self.consumed:]
+                return
             try:
                 m = R.read_request(bytes(self.buf), self.consumed)
             except R.Incomplete as i:
@@ -179,6 +255,34 @@ class Peer(asyncio.Protocol):
                 hdr.append(b"Connection: keep-alive")
             else:
                 close_after = True
+        nch = spec.get("chunks")
+        if beh == "upgrade-101":
+            # Switching Protocols: from here on the connection is a tunnel; nothing on it is HTTP any more
+            tok = spec.get("tok", "tcp").encode()
+            rh = spec.get("rhdr", "full")
+            if rh in ("full", "no-connection"):
+                hdr.append(b"Upgrade: " + tok)
+            if rh == "full":
+                hdr.append(b"Connection: upgrade")
+            msg = b"HTTP/1.1 101 Switching Protocols\r\n" + b"\r\n".join(hdr) + b"\r\n\r\n"
+            self.tunnel = True
+            w.log.append(("resp-complete", self.tidx, k, w.loop.iteration))
+            tb = {None: None, "http": b"HTTP/1.1 200 OK\r\nX-Rid: tunnel-%d\r\nContent-Length: 6\r\n\r\nTUNNEL" % k, "bin": b"\x82\x06tunnel\x00\xff-%d" % k,
+                  "http-partial": b"HTTP/1.1 200 OK\r\nX-Rid: tunnel-%d\r\n" % k}[spec.get("tunnel")]
+            if tb is not None and delay <= 0:
+                self.send(msg + tb, ("resp+tunnel", k))
+                w.taint(self.tidx, "upgraded", k)
+                w.taint(self.tidx, "tunnel-bytes", k)
+            else:
+                self.send(msg, ("resp", k))
+                w.taint(self.tidx, "upgraded", k)
+                if tb is not None:
+                    def late_t(tb=tb):
+                        if self.transport is not None and not self.transport.is_closing():
+                            self.send(tb, ("tunnel", k))
+                            w.taint(self.tidx, "tunnel-bytes", k)
+                    self.later(delay, late_t)
+            return
         if beh == "exact-chunked" or beh == "exact-trailers":
             hdr.append(b"Transfer-Encoding: chunked")
             half = len(body) // 2
@@ -190,6 +294,23 @@ class Peer(asyncio.Protocol):
         elif beh in ("status-204", "status-304"):
             status = b"204 No Content" if beh == "status-204" else b"304 Not Modified"
             framed = b""
+        elif spec.get("st"):
+            # a response that has no body by its status code (the peer goes on speaking HTTP afterwards)
+            status = {101: b"101 Switching Protocols", 204: b"204 No Content", 304: b"304 Not Modified", 205: b"205 Reset Content"}[spec["st"]]
+            if spec["st"] == 205:
+                hdr.append(b"Content-Length: 0")
+            framed = b""
+        elif nch:
+            # the same body cut into `nch` chunks (as even as possible)
+            hdr.append(b"Transfer-Encoding: chunked")
+            q, r = divmod(len(body), nch)
+            parts, pos = [], 0
+            for i in range(nch):
+                ln = q + (1 if i < r else 0)
+                if ln:
+                    parts.append(b"%x\r\n%s\r\n" % (ln, body[pos : pos + ln]))
+                pos += ln
+            framed = b"".join(parts) + b"0\r\n\r\n"
         else:
             hdr.append(b"Content-Length: %d" % len(body))
             framed = body
@@ -306,6 +427,17 @@ def run_case(case, rec, seed=0):
     w.pipes = []
     key_of_pipe = []
     write_events = []  # (tidx, client stream offset, iteration) for every client write
+    rd_events = {}  # tidx -> [(iteration, "pause"|"resume")]: reading state of the client end of the pipe
+    lag = case.get("connect_lag", 0)
+
+    class LagConnector(MemConnector):
+        """As loop.create_connection: the connection is made, the task that awaits it resumes `lag` iterations later."""
+
+        async def _create_connection(self, req, traces, timeout):
+            proto = await super()._create_connection(req, traces, timeout)
+            for _ in range(lag):
+                await asyncio.sleep(0)
+            return proto
 
     def factory(req):
         p = Peer(w, len(w.peers))
@@ -324,11 +456,24 @@ def run_case(case, rec, seed=0):
                 write_events.append((tidx, len(tr.written) - len(data), loop.iteration, bytes(data[:40])))
 
         pipe.write_hook = wh
+        pipe.b.seg.maxseg = 262144  # what one recv() of a selector transport takes at most
+        ev = rd_events.setdefault(tidx, [])
+        op, orr = pipe.a.pause_reading, pipe.a.resume_reading
+
+        def pause_reading():
+            ev.append((loop.iteration, "pause"))
+            op()
+
+        def resume_reading():
+            ev.append((loop.iteration, "resume"))
+            orr()
+
+        pipe.a.pause_reading, pipe.a.resume_reading = pause_reading, resume_reading
 
     reqs = case["reqs"]
     out = {}
 
-    async def one(k, session):
+    async def one(k, session, got, go):
         spec = reqs[k]
         ep, _, sslopt = spec["endpoint"].partition("|ssl=")
         url, _, px = ep.partition("|proxy=")
@@ -350,19 +495,45 @@ def run_case(case, rec, seed=0):
             meth = "POST"
         else:
             meth = "GET"
+        if spec["beh"] == "upgrade-101" and spec.get("asked", True):
+            kw["headers"] = {"Upgrade": spec.get("tok", "tcp"), "Connection": "upgrade"}
+        if spec.get("bufsize"):
+            kw["read_bufsize"] = spec["bufsize"]
         if mode == "timeout":
             kw["timeout"] = aiohttp.ClientTimeout(total=0.35)
         res = {"k": k}
         out[k] = res
         resp = None
-        try:
-            resp = await session.request(meth, url, **kw)
+
+        def head(resp):
             res["status"] = resp.status
             res["rid"] = resp.headers.get("X-Rid")
             res["version"] = tuple(resp.version)
+            res["upgrade_hdr"] = resp.headers.get("Upgrade")
+            res["connection_hdr"] = resp.headers.get("Connection")
             res["conn"] = None
+
+        try:
+            if mode in ("async-with", "async-with-read"):
+                async with session.request(meth, url, **kw) as resp:
+                    head(resp)
+                    if mode == "async-with-read":
+                        res["body"] = await resp.read()
+                res["done"] = True
+                return
+            resp = await session.request(meth, url, **kw)
+            head(resp)
             if mode in ("read", "timeout", "cancel"):
                 res["body"] = await resp.read()
+                if not resp.closed:
+                    resp.release()  # everything was read and the response is still open (101): the caller lets go of it
+            elif mode == "read-late":
+                # the caller holds the response and comes back for the body after it has issued further requests
+                got.set()
+                await go.wait()
+                res["body"] = await resp.read()
+                if not resp.closed:
+                    resp.release()
             elif mode == "read-slow":
                 b1 = await resp.content.read(10)
                 await asyncio.sleep(0.5)
@@ -386,12 +557,27 @@ def run_case(case, rec, seed=0):
             res["exc_is_client_error"] = isinstance(e, (aiohttp.ClientError, asyncio.TimeoutError))
             if resp is not None:
                 resp.close()
+        finally:
+            res["end_iter"] = loop.iteration
 
     async def main():
-        conn = MemConnector(factory, loop=loop, pipe_hook=hook, limit=case.get("limit", 100))
+        conn = LagConnector(factory, loop=loop, pipe_hook=hook, limit=case.get("limit", 100))
         async with aiohttp.ClientSession(connector=conn) as session:
+            late = []  # [task, go event, armed] of callers that still hold an unread response
             for k, spec in enumerate(reqs):
-                t = asyncio.ensure_future(one(k, session))
+                for ent in late:
+                    if not ent[2]:
+                        ent[2] = True
+                        loop.call_later(ent[3], ent[1].set)  # ... and reads it while the next request is under way
+                got, go = asyncio.Event(), asyncio.Event()
+                t = asyncio.ensure_future(one(k, session, got, go))
+                if spec["mode"] == "read-late":
+                    gw = asyncio.ensure_future(got.wait())
+                    await asyncio.wait({t, gw}, return_when=asyncio.FIRST_COMPLETED)
+                    gw.cancel()
+                    late.append([t, go, False, spec.get("late_after", 0.3)])
+                    await asyncio.sleep(case.get("gap", 1.0))
+                    continue
                 if spec["mode"] == "cancel":
                     await asyncio.sleep(spec.get("cancel_after", 0.0))
                     # let it run a little, then cancel the calling task
@@ -403,10 +589,17 @@ def run_case(case, rec, seed=0):
                 except BaseException:  # noqa
                     pass
                 await asyncio.sleep(case.get("gap", 1.0))
+            for ent in late:
+                ent[1].set()
+                try:
+                    await ent[0]
+                except BaseException:  # noqa
+                    pass
             out["acquired_end"] = len(conn._acquired)
         out["created"] = conn.created
 
-    st, task = w.W.run(main(), max_iters=400000, time_limit=loop.time() + 600)
+    # a request that cannot be answered (written into a tunnel, no free connection slot) ends with the default 300 s total timeout
+    st, task = w.W.run(main(), max_iters=400000, time_limit=loop.time() + 600 + 320 * len(reqs))
     captured = list(loop.captured)
     v = []
     if st != "until":
@@ -422,6 +615,21 @@ def run_case(case, rec, seed=0):
         eof_it = next((None for _ in ()), None)
         lost_it = None
         delivered_at[ti] = marks
+    def paused_since(ti, at):
+        st = None
+        for i, what in rd_events.get(ti, []):
+            if i > at:
+                break
+            if what == "pause":
+                st = i if st is None else st
+            else:
+                st = None
+        return st
+
+    def paused_throughout(ti, a, b):
+        ps = paused_since(ti, b)
+        return ps is not None and ps <= a
+
     # first write of each request on its transport
     first_write = {}
     for ti, off, it, head in write_events:
@@ -430,10 +638,12 @@ def run_case(case, rec, seed=0):
                 first_write[k] = (ti, it)
     first_write_pre = dict(first_write)
     taint_iter = {}
+    all_taints = {}  # tidx -> [(iteration sent, iteration delivered or None, kind, origin)]
     for ti, lst in w.pending_taint.items():
         for kind, it_sent, off, origin in lst:
             # effective when the last byte written at taint time was delivered to the client
             eff = next((it for end, it in delivered_at.get(ti, []) if end >= off), None)
+            all_taints.setdefault(ti, []).append((it_sent, eff, kind, origin))
             if eff is None:
                 continue
             # Extra bytes that arrive while a *later* request on this transport is still waiting for (the rest of) its
@@ -448,11 +658,11 @@ def run_case(case, rec, seed=0):
             if absorbed:
                 rec.count("info:extra-bytes-absorbed-by-a-later-open-exchange")
                 continue
-            taint_iter.setdefault(ti, []).append((eff, kind))
+            taint_iter.setdefault(ti, []).append((eff, kind, origin))
     for ti, pipe in enumerate(w.pipes):
         for ent in pipe.log:
             if ent[0] == "eof" and ent[1] == "b":  # the peer's EOF reached the client
-                taint_iter.setdefault(ti, []).append((ent[3], "peer-closed"))
+                taint_iter.setdefault(ti, []).append((ent[3], "peer-closed", None))
     # client-side taints: error / timeout / cancel / unread body on the transport used
     for k, res in out.items():
         if not isinstance(k, int):
@@ -462,7 +672,7 @@ def run_case(case, rec, seed=0):
             continue
         mode = reqs[k]["mode"]
         if res.get("exc") or mode in ("close",):
-            taint_iter.setdefault(ti, []).append((res.get("end_iter", None) or 0, "client-" + (res.get("exc") or mode)))
+            taint_iter.setdefault(ti, []).append((res.get("end_iter", None) or 0, "client-" + (res.get("exc") or mode), k))
     for k in sorted(first_write):
         ti, it = first_write[k]
         # key isolation
@@ -473,13 +683,38 @@ def run_case(case, rec, seed=0):
         kp = key_of_pipe[ti]
         if (kp[0], kp[1], kp[2], kp[3].rstrip("/") if kp[3] else None, kp[4]) != (key[0], key[1], key[2], key[3].rstrip("/") if key[3] else None, key[4]):
             v.append(("key-isolation:transport-shared-across-endpoints", f"request {k} for {key} written to a transport opened for {kp}"))
-        earlier = [(e, kind) for e, kind in taint_iter.get(ti, []) if e is not None and e < it and not kind.startswith("client-")]
+        earlier = [(e, kind, org) for e, kind, org in taint_iter.get(ti, []) if e is not None and e < it and not kind.startswith("client-")]
         # a taint only counts if it stems from an earlier request on this transport
-        if earlier:
-            prev = [j for j in first_write if first_write[j][0] == ti and j < k]
-            if prev:
-                kind = earlier[0][1]
-                v.append((f"reuse-after-taint:{kind}", f"request {k} was written (iteration {it}) to transport {ti} on which the client had already received {kind} at iteration {earlier[0][0]} (previous requests on it: {prev})"))
+        prev = [j for j in first_write if first_write[j][0] == ti and j < k]
+        for e_it, kind, org in earlier if prev else []:
+            mech = f"reuse-after-taint:{kind}"
+            # what the caller was given by the last exchange on this transport before the bytes came (read off the response, not off the script)
+            last = max((j for j in prev if first_write[j][1] < e_it), default=None)
+            src = out.get(last, {}) if last is not None else {}
+            if kind == "upgraded":
+                if src.get("status") != 101:
+                    continue
+                if src.get("upgrade_hdr") is None or "upgrade" not in (src.get("connection_hdr") or "").lower():
+                    # PROFILE incomplete-101-is-not-an-upgrade: RFC 9110 7.8 - a 101 must name the protocol in Upgrade, and a sender
+                    # of Upgrade must list it in Connection; a 101 without them switches to nothing.  The repository pins reuse after
+                    # such a 101: tests/test_client_functional.py::test_keepalive_after_empty_body_status[101] (and ..._stream_response[101]).
+                    rec.count("profile:incomplete-101-is-not-an-upgrade")
+                    continue
+                if (src.get("upgrade_hdr") or "").lower() not in ("websocket", "tcp"):
+                    mech += ":101-for-a-protocol-other-than-websocket-or-tcp"
+            elif src.get("status") == 101 and kind in ("surplus", "unsolicited", "tunnel-bytes"):
+                mech = "reuse-after-taint:bytes-after-a-101-response"
+            v.append((mech, f"request {k} was written (iteration {it}) to transport {ti} on which the client had already received {kind} at iteration {e_it} (previous requests on it: {prev})"))
+            break
+        if not earlier:
+            # Bytes that reached the client's end of the pipe while it was not reading: they arrived outside an exchange all the
+            # same.  Counts only when reading stayed paused from their arrival until request k was written.
+            for it_sent, eff, kind, origin in all_taints.get(ti, []) if prev else []:
+                if origin is not None and origin >= k:
+                    continue
+                if it_sent + 1 < it and (eff is None or eff >= it) and paused_throughout(ti, it_sent + 1, it):
+                    v.append((f"reuse-after-taint:{kind}:arrived-while-reading-paused", f"request {k} was written (iteration {it}) to transport {ti}; {kind} bytes sent at iteration {it_sent} had reached the client's end, which had paused reading since iteration {paused_since(ti, it)} and was still paused (previous requests on it: {prev})"))
+                    break
         prevs = [j for j in first_write if first_write[j][0] == ti and j < k]
         for j in prevs:
             rj = out.get(j, {})
@@ -520,22 +755,32 @@ def run_case(case, rec, seed=0):
             # foreign bytes that the peer sent on this transport *after* request k was handed to it may legitimately
             # land in exchange k ("built only from bytes the peer sent after that request was handed to its connection")
             fw = first_write.get(k)
+            # ... while the exchange was open: until the caller had what it took from this response
+            until = res.get("end_iter", 1 << 60)
             late_foreign = fw is not None and any(
-                ent[0] == "peer-send" and ent[1] == fw[0] and ent[2][1] != k and ent[4] >= fw[1] for ent in w.log
+                ent[0] == "peer-send" and ent[1] == fw[0] and ent[2][1] != k and fw[1] <= ent[4] <= until for ent in w.log
             )
             if late_foreign:
                 rec.count("info:foreign-bytes-sent-after-this-request-was-handed-over(allowed)")
                 continue
+            if rid is not None and "greeting" in rid and not any(e[0] == "data" and e[1] == "b" and e[5] < fw[1] for e in w.pipes[fw[0]].log):
+                # sent before the request existed, but still in flight when it was written: the client cannot tell
+                rec.count("info:greeting-still-in-flight-when-the-first-request-was-written(grey)")
+                continue
             if rid != str(k):
-                what = "unsolicited" if rid and "unsolicited" in rid else ("surplus" if rid and "surplus" in rid else ("interim" if rid and "interim" in rid else f"other-request"))
+                what = next((m for m in ("unsolicited", "surplus", "interim", "greeting", "tunnel") if rid and m in rid), "other-request")
+                if what == "greeting":
+                    what = "bytes-sent-before-the-first-request"
+                elif what == "tunnel":
+                    what = "tunnel-bytes-after-101"
                 v.append((f"provenance:response-head-from-{what}", f"request {k} ({beh}, {reqs[k]['mode']}) got a response marked {rid!r}; previous behaviours {[r['beh'] for r in reqs[:k]]}"))
                 continue
             body = res.get("body")
             if body is not None:
-                exp = body_of(k, reqs[k].get("n", 40)) if beh not in ("status-204", "status-304") else b""
+                exp = body_of(k, reqs[k].get("n", 40)) if not bodiless(reqs[k]) else b""
                 if not exp.startswith(body):
                     v.append(("provenance:response-body-foreign-bytes", f"request {k} ({beh}) body {body[:60]!r} is not a prefix of {exp[:20]!r}..."))
-                elif res.get("done") and body != exp and beh not in ("truncated-close",) and reqs[k]["mode"] in ("read", "read-slow"):
+                elif res.get("done") and body != exp and beh not in ("truncated-close",) and reqs[k]["mode"] in ("read", "read-slow", "read-late", "async-with-read"):
                     v.append(("delivery:short-body-without-error", f"request {k} ({beh}) delivered {len(body)} of {len(exp)} bytes and no error"))
         elif res.get("exc") and not res.get("exc_is_client_error", True) and res["exc"] != "CancelledError":
             v.append((f"client-error-type:{res['exc']}", f"request {k} ({beh}) raised {res['exc']}"))
@@ -552,6 +797,7 @@ def run_case(case, rec, seed=0):
         "created": out.get("created"),
         "transports": [first_write[k][0] if k in first_write else None for k in range(len(reqs))],
         "results": [(out.get(k, {}).get("status"), out.get(k, {}).get("exc")) for k in range(len(reqs))],
+        "pauses": sum(1 for evs in rd_events.values() for _i, what in evs if what == "pause"),
     }
     w.W.close()
     return v, obs
@@ -565,7 +811,25 @@ def report(rec, case, v, obs):
     rec.count("transports-created", obs["created"] or 0)
     if reused:
         rec.count("histories-with-reuse")
-    rec.sig("interleaving", (tuple((r["beh"], r["delay"], r["mode"]) for r in case["reqs"]), tuple(obs["transports"]), tuple(obs["results"])))
+    extra = ("tok", "asked", "rhdr", "tunnel", "chunks", "bufsize", "st")
+    rec.sig("interleaving", (tuple((r["beh"], r["delay"], r["mode"]) + tuple(r.get(x) for x in extra) for r in case["reqs"]), case.get("greeting"), case.get("connect_lag"),
+                             tuple(obs["transports"]), tuple(obs["results"])))
+    for r in case["reqs"]:
+        if r["beh"] == "upgrade-101":
+            rec.count("class:101-upgrade-through-plain-request")
+        if r.get("bufsize"):
+            rec.count("class:small-read-buffer")
+        if r.get("chunks"):
+            rec.count("class:body-in-n-chunks")
+        if r.get("st"):
+            rec.count("class:bodiless-status-with-extra-bytes")
+        if r["mode"] == "read-late":
+            rec.count("class:late-reader")
+    if case.get("greeting"):
+        rec.count("class:greeting-before-first-request")
+    if obs.get("pauses"):
+        rec.count("histories-in-which-the-client-paused-reading")
+        rec.count("client-pause_reading-calls", obs["pauses"])
     for mech, summ in v:
         rec.violation(mech, summ, case)
 
@@ -574,6 +838,61 @@ def mk(beh="exact", delay=0.0, mode="read", endpoint=ENDPOINTS[0], **kw):
     d = {"beh": beh, "delay": delay, "mode": mode, "endpoint": endpoint}
     d.update(kw)
     return d
+
+
+BLOCK_SPACES = {
+    "upgrade": ["101 upgrade: token x asked x response headers x tunnel bytes x delay x way the caller ends, in position 2 of a 4-request history"],
+    "flow": ["flow control: read_bufsize x framing around the byte / chunk-count pause marks x extra bytes x delay x consumption mode, in position 2 of a 4-request history"],
+    "misc": ["bodiless status (101/204/205/304) x extra bytes x delay x mode", "greeting kind x connect lag x mode of the first request", "chunk counts around the marks of the default read buffer"],
+}
+
+
+def block_cases(kind, full):
+    """The cases of one block.  quick takes a fixed subset of each dimension (never of the scenario classes)."""
+    E = "exact"
+    if kind == "upgrade":
+        pres = (E, "exact-chunked") if full else (E,)
+        for pre in pres:
+            for tok in UPGRADE_TOKENS if full else ("tcp", "websocket", "h2c"):
+                for asked in (True, False):
+                    for rh in UPGRADE_RHDR:
+                        for tun in UPGRADE_TUNNEL:
+                            for d in DELAYS if tun else DELAYS[:1]:
+                                for end in UPGRADE_ENDS:
+                                    yield {"reqs": [mk(pre), mk("upgrade-101", d, end, tok=tok, asked=asked, rhdr=rh, tunnel=tun), mk(E), mk(E)], "gap": 1.0}
+        # an upgrade as the very first exchange of a connection, and two in a row
+        for tok in UPGRADE_TOKENS:
+            for end in UPGRADE_ENDS:
+                yield {"reqs": [mk("upgrade-101", 0.0, end, tok=tok), mk(E), mk(E)], "gap": 0.1}
+                yield {"reqs": [mk(E), mk("upgrade-101", 0.0, end, tok=tok), mk("upgrade-101", 0.0, end, tok=tok), mk(E)], "gap": 1.0}
+    elif kind == "flow":
+        for bufsize in (64, 256, 1024) if full else (64,):
+            for n, ch in flow_framings(bufsize):
+                for beh in FLOW_BEHS:
+                    for d in DELAYS if beh != E else DELAYS[:1]:
+                        for mode in FLOW_MODES:
+                            for pre in (E, "exact-chunked") if full else (E,):
+                                yield {"reqs": [mk(pre), mk(beh, d, mode, n=n, chunks=ch, bufsize=bufsize), mk(E), mk(E)], "gap": 1.0}
+                # the transport is paused / resumed around the end of the response while the body comes in two parts
+                for mode in FLOW_MODES:
+                    yield {"reqs": [mk(E), mk("head-only-slow", 0.2, mode, n=n, chunks=ch, bufsize=bufsize), mk(E), mk(E)], "gap": 1.0}
+                    yield {"reqs": [mk(E), mk("surplus-response-split", 0.0, mode, n=n, chunks=ch, bufsize=bufsize), mk(E), mk(E)], "gap": 1.0}
+    else:
+        for st in (101, 204, 304, 205):
+            for beh in (E, "surplus-garbage", "surplus-response", "unsolicited", "unsolicited-partial", "unsolicited-partial-line", "close-after", "says-close-stays-open"):
+                for d in DELAYS if beh != E else DELAYS[:1]:
+                    for mode in ("read", "release-unread", "async-with", "ignore-body", "close", "read-late"):
+                        yield {"reqs": [mk(E), mk(beh, d, mode, st=st), mk(E), mk(E)], "gap": 1.0}
+        for g in GREETINGS:
+            for lag in LAGS:
+                for mode in ("read", "release-unread", "close", "async-with", "read-late") if full else ("read", "release-unread"):
+                    yield {"reqs": [mk(E, 0.0, mode), mk(E), mk(E, endpoint=ENDPOINTS[3]), mk(E)], "gap": 1.0, "greeting": g, "connect_lag": lag}
+        # the default read buffer: chunk counts around power-of-two fractions of plausible defaults (64 KiB .. 256 KiB)
+        for base in (2 ** 16, 2 ** 18):
+            for c in (base // 16, base // 16 + 1):
+                for beh, d in ((E, 0.0), ("unsolicited", 0.7), ("surplus-response", 0.2)) if full else (("unsolicited", 0.7),):
+                    for mode in ("read", "release-unread", "ignore-body", "read-late") if full else ("release-unread", "read-late"):
+                        yield {"reqs": [mk(E), mk(beh, d, mode, n=c, chunks=c), mk(E), mk(E)], "gap": 1.0}
 
 
 def run_shard(spec, rec):
@@ -603,6 +922,18 @@ def run_shard(spec, rec):
                         report(rec, case, v, obs)
             rec.set_exhaustive("ordered pairs/triples of endpoints differing in one key component (scheme, port, host, proxy, TLS setting)", True)
         rec.set_exhaustive("behaviour x delay x mode in position 2 of a 4-request history" + ("" if spec["stride"] == 1 else f" (1/{spec['stride']} sample per seed)"), spec["stride"] == 1)
+    elif kind in ("upgrade", "flow", "misc"):
+        cases = list(block_cases(kind, spec["full"]))
+        mine = [c for i, c in enumerate(cases) if i % spec["parts"] == spec["part"]]
+        rng = random.Random(spec["seed"] + spec["sub"])
+        for case in mine:
+            v, obs = run_case(case, rec, seed=spec["seed"])
+            report(rec, case, v, obs)
+            if rng.random() < 0.004:
+                rec.sample({"history": [{x: y for x, y in r.items() if x != "endpoint"} for r in case["reqs"]], "greeting": case.get("greeting"), "connect_lag": case.get("connect_lag"),
+                            "transports": obs["transports"], "results": obs["results"]})
+        for name in BLOCK_SPACES[kind]:
+            rec.set_exhaustive(name + ("" if spec["full"] else " (quick subset)"), True)
     else:
         rng = random.Random(spec["seed"] * 1000003 + spec["sub"] * 7919 + 6)
         for i in range(spec["n"]):
@@ -611,8 +942,27 @@ def run_shard(spec, rec):
             reqs = []
             for j in range(n):
                 b = rng.choice(BEHAVIOURS) if rng.random() < 0.6 else "exact"
-                reqs.append(mk(b, rng.choice(DELAYS), rng.choice(MODES) if rng.random() < 0.5 else "read", eps[j], n=rng.choice([0, 1, 40, 3000]), cancel_steps=rng.randint(0, 8)))
+                r = mk(b, rng.choice(DELAYS), rng.choice(MODES) if rng.random() < 0.5 else "read", eps[j], n=rng.choice([0, 1, 40, 3000]), cancel_steps=rng.randint(0, 8))
+                x = rng.random()
+                if x < 0.08:
+                    r.update(beh="upgrade-101", tok=rng.choice(UPGRADE_TOKENS), asked=rng.random() < 0.7, rhdr=rng.choice(UPGRADE_RHDR), tunnel=rng.choice(UPGRADE_TUNNEL), mode=rng.choice(UPGRADE_ENDS))
+                elif x < 0.25:
+                    r["bufsize"] = rng.choice([64, 64, 256, 1024])
+                    if rng.random() < 0.6:
+                        r["chunks"] = max(2, max(4, r["bufsize"] // 16) + rng.choice([-2, -1, 0, 1, 1, 1, 2, 5]))
+                        r["n"] = max(r["n"], r["chunks"])
+                    else:
+                        r["n"] = rng.choice([r["bufsize"], 2 * r["bufsize"] - 1, 2 * r["bufsize"], 2 * r["bufsize"] + 1, 5 * r["bufsize"]])
+                elif x < 0.29:
+                    r["st"] = rng.choice([101, 204, 304, 205])
+                if r["mode"] == "read-late":
+                    r["late_after"] = rng.choice([0.0, 0.05, 0.3, 0.3, 2.0])
+                reqs.append(r)
             case = {"reqs": reqs, "gap": rng.choice([0.0, 0.1, 1.0, 1.0, 20.0]), "limit": rng.choice([100, 1, 2])}
+            if rng.random() < 0.2:
+                case["connect_lag"] = rng.choice(LAGS)
+                if rng.random() < 0.25:
+                    case["greeting"] = rng.choice(GREETINGS)
             v, obs = run_case(case, rec, seed=i)
             report(rec, case, v, obs)
             if i % 120 == 0:
